@@ -15,7 +15,10 @@ META = {
         'the single tempo/time signature made explicit at 0, and nothing else '
         'changed; rejection clauses are decided as "raises iff". E2: the '
         'binary64 behaviour of quantize_to_step itself (nearest, monotone, '
-        'negative cut-off) is decided as QF_FP lemmas generated from its AST.',
+        'negative cut-off) is decided as QF_FP lemmas generated from its AST '
+        '(L1-L6 at steps_per_second = 1; L7 for any steps_per_second in '
+        '[1,1000] and an explicit cutoff; L5/L5r for the derived steps per '
+        'second).',
     'level_note':
         'Trusted: z3; reals for doubles in E1 (rounding only in the E2 '
         'lemmas); symproto (validated per sampled path on upb); the FP '
@@ -31,11 +34,31 @@ META = {
                   ('sequences_lib', '_quantize_notes'),
                   ('sequences_lib', 'quantize_note_sequence'),
                   ('sequences_lib', 'quantize_note_sequence_absolute'),
-                  ('sequences_lib', '_is_power_of_2')],
+                  ('sequences_lib', '_is_power_of_2'),
+                  ('sequences_lib', 'stretch_note_sequence'),
+                  ('sequences_lib', 'is_quantized_sequence'),
+                  ('sequences_lib', 'is_relative_quantized_sequence'),
+                  ('sequences_lib', 'is_absolute_quantized_sequence')],
     'assumptions': [
         'E1 models double fields as exact reals',
         'non-negative event times in the snap harnesses (negative times only in '
-        'the rejection harness)',
+        'the rejection harnesses and in the direct quantize_to_step harness '
+        'h4_q2s / lemmas L4, L7)',
+        'note end_time >= start_time everywhere (inverted notes: see the '
+        'FINDING-CANDIDATE comment in jobs())',
+        'total_time >= every note end except in the total=free jobs (any '
+        'total_time >= 0, also 0 / stale)',
+        'times at most half a step before zero: nearest step (0) asserted; '
+        'between 1/2 and 2 steps before zero only "accepted or '
+        'NegativeTimeError" (not documented)',
+        'which error wins when several documented rejections coincide is not '
+        'asserted (h2_combined: the error raised names a cause that is present)',
+        'negative numerators are not tried (documented: only 0 is rejected)',
+        'L7: explicit quantize_cutoff follows the anchor formula int(t*sps + (1 '
+        '- cutoff)) (truncation toward zero) for t in [-2^30,2^30], '
+        'steps_per_second any double or int in [1,1000], cutoff in [-4,4]',
+        'L5r: standard model of binary64 (each operation exact*(1+d), |d| <= '
+        '2^-53), tolerance 2^-51 relative',
         'L5: integer tempi 10..480 whose steps per second is an integer; '
         'steps_per_quarter from {1,2,3,4,6,8,12,24,30,50,60,96} (quick) / '
         '1..96 (thorough)',
@@ -44,11 +67,24 @@ META = {
         'correctly rounded multiplication by a positive constant is monotone',
     ],
     'bounds': {
-        'quick': 'N<=2 notes + 1 control change + 1 annotation; '
+        'quick': 'N<=2 notes (also 0) + 0..2 control changes + 0..2 '
+                 'annotations; '
                  'steps_per_second in {1,3,31,100,1000}; steps_per_quarter in '
-                 '{1,4,24,96} with tempo symbolic in [10,480]; <=3 tempos / '
-                 'time signatures in arbitrary storage order; denominators '
-                 '0..130',
+                 '{1,4,24,96} with tempo symbolic in [10,480]; tempo/meter '
+                 'explicit, absent, one of them absent, late 120/4-4, stated '
+                 'twice; <=3 tempos / '
+                 'time signatures in arbitrary storage order (with and without '
+                 'a note + control change); denominators 0..130 + 17 large / '
+                 'negative values; two tempos + two time signatures + possibly '
+                 'negative control change together (h2_combined); negative '
+                 'times through both entry points, harmless events stored '
+                 'before and after; absolute quantization given 2 tempos / 2 '
+                 'meters (any numerator 0..12, denominator 0..9); direct calls '
+                 'of quantize_to_step (cutoff in [0,1] positional / keyword, '
+                 'sps in {3,100,8.25}, t in [-10,1000]), '
+                 'steps_per_quarter_to_steps_per_second (int / real tempo) and '
+                 '_quantize_notes on a sequence with stale quantized fields; '
+                 'the real stretch_note_sequence with k in {3/2,1/2}',
         'thorough': 'N<=3; steps_per_second symbolic in [1,1000]; every '
                     'steps_per_quarter of {1,2,3,4,6,8,12,24,96}',
     },
@@ -74,18 +110,36 @@ def _populate_other_fields(c, ns):
   ns.sequence_metadata.title = 't'
   ns.sequence_metadata.genre.append('g')
   ns.subsequence_info.start_time_offset = c.real('sub_off', 0)
+  # fields that are at their default in most hand-built sequences
+  ns.key_signatures[0].mode = 1
+  ns.pitch_bends[0].instrument = 2
+  ns.pitch_bends[0].program = 9
+  ns.pitch_bends[0].is_drum = True
+  ns.subsequence_info.end_time_offset = 0.25
+  g = ns.section_groups.add(num_times=2)
+  g.sections.add(section_id=3)
+  ns.reference_number = 7
+  ns.collection_name = 'coll'
 
 
-def _events(c, ns, N, ncc=1, nta=1):
-  notes = K.add_notes(c, ns, N, instruments=(0, 3), drums=True)
+def _events(c, ns, N, ncc=1, nta=1, t_lo=0):
+  notes = K.add_notes(c, ns, N, instruments=(0, 3), drums=True, t_lo=t_lo)
+  for i, m in enumerate(ns.notes):
+    m.program = 10 + i
+    m.pitch_name = 3
+    m.numerator = 1
+    m.denominator = 8
+    m.part = 1
+    m.voice = 2
   ccs, tas = [], []
   for i in range(ncc):
-    t = c.real('cc%d_t' % i, 0)
+    t = c.real('cc%d_t' % i, t_lo)
     ns.control_changes.add(time=t, control_number=c.int('cc%d_n' % i, 0, 127),
-                           control_value=c.int('cc%d_v' % i, 0, 127))
+                           control_value=c.int('cc%d_v' % i, 0, 127),
+                           instrument=2, program=5 + i, is_drum=True)
     ccs.append(t)
   for i in range(nta):
-    t = c.real('ta%d_t' % i, 0)
+    t = c.real('ta%d_t' % i, t_lo)
     ns.text_annotations.add(time=t, text='C', annotation_type=c.int(
         'ta%d_ty' % i, 0, 2))
     tas.append(t)
@@ -119,25 +173,70 @@ def _monotone(c, times, sps):
   return c.And(conds or [True])
 
 
+def _total(c, ns, notes):
+  """total_time: well formed (>= every note end) by default; with the job
+  parameter total='free' any non-negative value, also one smaller than the
+  note ends (hand-built sequences with a stale / zero total_time)."""
+  if c.params.get('total') == 'free':
+    tt = c.real('tt', 0)
+    ns.total_time = tt
+    return tt
+  return K.well_formed_total(c, ns, notes)
+
+
+def _predicates(c, sl, q, relative):
+  """The module's own predicates recognise the result."""
+  c.check(sl.is_quantized_sequence(q), 'result is_quantized_sequence')
+  c.check(bool(sl.is_relative_quantized_sequence(q)) == relative,
+          'is_relative_quantized_sequence of the result')
+  c.check(bool(sl.is_absolute_quantized_sequence(q)) == (not relative),
+          'is_absolute_quantized_sequence of the result')
+  _, err = c.raises(sl.assert_is_relative_quantized_sequence, q)
+  c.check((err is None) == relative,
+          'assert_is_relative_quantized_sequence of the result')
+  _, err = c.raises(sl.assert_is_absolute_quantized_sequence, q)
+  c.check((err is None) == (not relative),
+          'assert_is_absolute_quantized_sequence of the result')
+
+
 def h1_absolute(c):
   N = c.params['N']
   pb, sl = c.pb, c.mod('sequences_lib')
   ns = pb.NoteSequence()
-  notes, ccs, tas = _events(c, ns, N)
-  tt = K.well_formed_total(c, ns, notes)
+  notes, ccs, tas = _events(c, ns, N, c.params.get('ncc', 1),
+                            c.params.get('nta', 1))
+  tt = _total(c, ns, notes)
   _populate_other_fields(c, ns)
   ns.tempos.add(time=c.real('tp_t', 0), qpm=c.real('tp_q', 10, 480))
   ns.time_signatures.add(time=c.real('ts_t', 0), numerator=3, denominator=8)
+  if c.params.get('meta') == 'multi':
+    # everything the tempo-relative sibling rejects: "Tempos and time
+    # signatures will be copied but ignored"
+    ns.tempos.add(time=c.real('tp1_t', 0), qpm=c.real('tp1_q', 10, 480))
+    ns.time_signatures.add(time=c.real('ts1_t', 0),
+                           numerator=c.int('ts1_n', 0, 12),
+                           denominator=c.int('ts1_d', 0, 9))
   if c.params.get('sps') == 'sym':
     sps = c.int('sps', 1, 1000)
   else:
     sps = c.params['sps']
   before = c.snapshot(ns)
-  q = sl.quantize_note_sequence_absolute(ns, sps)
+  if c.params.get('meta') == 'multi':
+    q, err = c.raises(sl.quantize_note_sequence_absolute, ns, sps)
+    c.check(err is None,
+            'absolute quantization ignores tempo / time signature changes')
+    if err is not None:
+      return
+    c.cover('two tempos and a bad second time signature',
+            c.And(c.Not(c.eq(ns.tempos[0].qpm, ns.tempos[1].qpm)),
+                  c.eq(ns.time_signatures[1].denominator, 3)))
+  else:
+    q = sl.quantize_note_sequence_absolute(ns, sps)
   exp = _expected(c, ns, notes, ccs, tas, tt, sps)
   exp.quantization_info.steps_per_second = sps
   c.check(c.msg_eq(q, exp),
           'result = input copy + nearest steps (nothing else changed)')
+  c.check(q is not ns, 'result is a copy')
   for m in q.notes:
     c.check(m.quantized_end_step >= m.quantized_start_step + 1,
             'every note at least one step long')
@@ -147,6 +246,11 @@ def h1_absolute(c):
                                              ] + ccs + tas
   c.check(_monotone(c, times, sps), 'step assignment monotone in time')
   c.check(c.msg_eq(ns, before), 'input unchanged')
+  if c.params.get('pred'):
+    _predicates(c, sl, q, False)
+  if N and c.params.get('total') == 'free':
+    c.cover('note ends after the stale total_time',
+            _step(c, notes[-1]['end_time'], sps) > _step(c, tt, sps) + 1)
   if N:
     x = notes[0]['start_time'] * sps
     c.cover('exact half-step tie rounds up',
@@ -160,11 +264,13 @@ def h1_absolute(c):
 def h1_relative(c):
   N = c.params['N']
   spq = c.params['spq']
-  mode = c.params['tempo']  # 'explicit' | 'absent' | 'late120'
+  # 'explicit' | 'absent' | 'late120' | 'notempo' | 'late120_nometer' | 'dup'
+  mode = c.params['tempo']
   pb, sl = c.pb, c.mod('sequences_lib')
   ns = pb.NoteSequence()
-  notes, ccs, tas = _events(c, ns, N)
-  tt = K.well_formed_total(c, ns, notes)
+  notes, ccs, tas = _events(c, ns, N, c.params.get('ncc', 1),
+                            c.params.get('nta', 1))
+  tt = _total(c, ns, notes)
   _populate_other_fields(c, ns)
   if mode == 'explicit':
     qpm = c.real('qpm', 10, 480)
@@ -175,6 +281,24 @@ def h1_relative(c):
     qpm = 120.0
     ns.tempos.add(time=c.real('tp_t', 0), qpm=120)
     ns.time_signatures.add(time=c.real('ts_t', 0), numerator=4, denominator=4)
+  elif mode == 'notempo':
+    # no tempo (implicit 120 qpm) but an explicit meter
+    qpm = 120.0
+    ns.time_signatures.add(time=0, numerator=c.int('ts_n', 1, 12),
+                           denominator=8)
+  elif mode == 'late120_nometer':
+    # a late 120 qpm tempo is no tempo change; no meter (implicit 4/4)
+    qpm = 120.0
+    ns.tempos.add(time=c.real('tp_t', 0), qpm=120)
+  elif mode == 'dup':
+    # the same tempo / meter stated twice (second statement at time 0, first
+    # anywhere) is not a change
+    qpm = c.real('qpm', 10, 480)
+    ns.tempos.add(time=c.real('tp_t', 0), qpm=qpm)
+    ns.tempos.add(time=0, qpm=qpm)
+    nu = c.int('ts_n', 1, 12)
+    ns.time_signatures.add(time=c.real('ts_t', 0), numerator=nu, denominator=8)
+    ns.time_signatures.add(time=0, numerator=nu, denominator=8)
   else:
     qpm = 120.0
   sps = spq * qpm / 60.0
@@ -182,26 +306,42 @@ def h1_relative(c):
   q = sl.quantize_note_sequence(ns, spq)
   exp = _expected(c, ns, notes, ccs, tas, tt, sps)
   exp.quantization_info.steps_per_quarter = spq
-  if mode == 'absent':
+  if mode in ('absent', 'notempo'):
     exp.tempos.add(qpm=120.0, time=0)
-    exp.time_signatures.add(numerator=4, denominator=4, time=0)
   else:
     exp.tempos[0].time = 0
+    del exp.tempos[1:]
+  if mode in ('absent', 'late120_nometer'):
+    exp.time_signatures.add(numerator=4, denominator=4, time=0)
+  else:
     exp.time_signatures[0].time = 0
+    del exp.time_signatures[1:]
   c.check(c.msg_eq(q, exp),
           'result = input copy + nearest steps + explicit single tempo/meter')
+  c.check(q is not ns, 'result is a copy')
   c.check(len(q.tempos) == 1 and len(q.time_signatures) == 1,
           'exactly one tempo and one time signature')
+  for m in q.notes:
+    c.check(m.quantized_end_step >= m.quantized_start_step + 1,
+            'every note at least one step long')
+    c.check(q.total_quantized_steps >= m.quantized_end_step,
+            'total_quantized_steps covers every note end')
   times = [n['start_time'] for n in notes] + [n['end_time'] for n in notes
                                              ] + ccs + tas
   c.check(_monotone(c, times, sps), 'step assignment monotone in time')
   c.check(c.msg_eq(ns, before), 'input unchanged')
+  if c.params.get('pred'):
+    _predicates(c, sl, q, True)
+  if N and c.params.get('total') == 'free':
+    c.cover('note ends after the stale total_time',
+            _step(c, notes[-1]['end_time'], sps) > _step(c, tt, sps) + 1)
 
 
 def h3_stretch(c):
   """Relative quantisation is invariant under uniform stretching."""
   N = c.params['N']
   spq = c.params['spq']
+  real = c.params.get('real')  # stretch with the real stretch_note_sequence
   pb, sl = c.pb, c.mod('sequences_lib')
   # k is concrete per job (grid); with k symbolic the path conditions contain
   # (s*k)*(q/k), which z3's linear core cannot cancel (measured: unknown after
@@ -222,12 +362,27 @@ def h3_stretch(c):
   ns2.total_time = tt * k
   ns1.tempos.add(qpm=qpm)
   ns2.tempos.add(qpm=qpm / k)
+  if c.params.get('ev'):
+    # a control change, a text annotation and a (single) time signature
+    t1, t2 = c.real('cc_t', 0), c.real('ta_t', 0)
+    for ns_, f in ((ns1, 1), (ns2, k)):
+      ns_.control_changes.add(time=t1 * f, control_number=64, control_value=1)
+      ns_.text_annotations.add(time=t2 * f, text='C', annotation_type=1)
+      ns_.time_signatures.add(time=0, numerator=3, denominator=4)
+  if real:
+    ns2 = sl.stretch_note_sequence(ns1, k)
+    c.check(ns2 is not ns1, 'stretch_note_sequence returns a copy')
   q1 = sl.quantize_note_sequence(ns1, spq)
   q2 = sl.quantize_note_sequence(ns2, spq)
   for a, b in zip(q1.notes, q2.notes):
     c.check(c.And(c.eq(a.quantized_start_step, b.quantized_start_step),
                   c.eq(a.quantized_end_step, b.quantized_end_step)),
             'steps invariant under stretching')
+  c.check(len(q1.notes) == len(q2.notes) == N, 'same notes after stretching')
+  for a, b in zip(list(q1.control_changes) + list(q1.text_annotations),
+                  list(q2.control_changes) + list(q2.text_annotations)):
+    c.check(c.eq(a.quantized_step, b.quantized_step),
+            'event steps invariant under stretching')
   c.check(c.eq(q1.total_quantized_steps, q2.total_quantized_steps),
           'total steps invariant under stretching')
 
@@ -239,12 +394,42 @@ def _reject_common(c, sl, ns, spq):
   return res, err
 
 
+def _reject_events(c, ns):
+  """Optional events in the rejection harnesses (job parameter ev=1): one note
+  and one control change with free non-negative times."""
+  if c.params.get('ev'):
+    return _events(c, ns, 1, 1, 0)
+  return [], [], []
+
+
+def _accepted(c, res, before, ev, tt, spq, qpm, add_tempo, add_ts):
+  """Accepted branch of the rejection harnesses: the result is the input copy
+  + steps at spq*qpm/60 steps per second + the single explicit tempo/meter."""
+  notes, ccs, tas = ev
+  exp = _expected(c, before, notes, ccs, tas, tt, spq * qpm / 60.0)
+  exp.quantization_info.steps_per_quarter = spq
+  if add_tempo:
+    exp.tempos.add(qpm=120.0, time=0)
+  else:
+    exp.tempos[0].time = 0
+    del exp.tempos[1:]
+  if add_ts:
+    exp.time_signatures.add(numerator=4, denominator=4, time=0)
+  else:
+    exp.time_signatures[0].time = 0
+    del exp.time_signatures[1:]
+  c.check(c.msg_eq(res, exp),
+          'accepted: result = input copy + steps + single tempo/meter at 0')
+
+
 def h2_tempos(c):
   """MultipleTempoError iff there is an explicit or implicit tempo change."""
   K_ = c.params['K']
   pb, sl = c.pb, c.mod('sequences_lib')
   ns = pb.NoteSequence()
-  ns.total_time = c.real('tt', 0)
+  ev = _reject_events(c, ns)
+  tt = c.real('tt', 0)
+  ns.total_time = tt
   tempos = []
   for i in range(K_):
     t = c.real('tp%d_t' % i, 0)
@@ -265,6 +450,7 @@ def h2_tempos(c):
     c.check(len(res.tempos) == 1, 'one tempo')
     c.check(c.And(c.eq(res.tempos[0].qpm, tempos[0][1]),
                   c.eq(res.tempos[0].time, 0)), 'the single tempo at time 0')
+    _accepted(c, res, ns, ev, tt, 4, tempos[0][1], False, True)
     c.cover('accepted')
   if K_ >= 2:
     c.cover('later tempo stored first', tempos[0][0] > tempos[1][0])
@@ -275,7 +461,9 @@ def h2_timesigs(c):
   K_ = c.params['K']
   pb, sl = c.pb, c.mod('sequences_lib')
   ns = pb.NoteSequence()
-  ns.total_time = c.real('tt', 0)
+  ev = _reject_events(c, ns)
+  tt = c.real('tt', 0)
+  ns.total_time = tt
   tss = []
   for i in range(K_):
     t = c.real('ts%d_t' % i, 0)
@@ -301,21 +489,34 @@ def h2_timesigs(c):
                   c.eq(res.time_signatures[0].denominator, tss[0][2]),
                   c.eq(res.time_signatures[0].time, 0)),
             'the single time signature at time 0')
+    _accepted(c, res, ns, ev, tt, 4, 120.0, True, False)
     c.cover('accepted')
   if K_ >= 2:
     c.cover('later time signature stored first', tss[0][0] > tss[1][0])
+
+
+# denominators beyond the symbolic range 0..130: large powers of two (valid),
+# their neighbours, other large values and negative values (int32 field)
+_BIG_DENOMINATORS = [256, 512, 1024, 2**20, 2**30, 255, 257, 384, 1000, 1023,
+                     1025, 2**30 + 2**29, 2**31 - 1, -1, -2, -4, -2**31]
 
 
 def h2_bad_timesig(c):
   """BadTimeSignatureError iff numerator 0 or denominator not a power of 2."""
   pb, sl = c.pb, c.mod('sequences_lib')
   ns = pb.NoteSequence()
-  ns.total_time = c.real('tt', 0)
+  ev = _reject_events(c, ns)
+  tt = c.real('tt', 0)
+  ns.total_time = tt
   nu = c.int('nu', 0, 12)
-  de = c.int('de', 0, 130)
+  if c.params.get('de') == 'big':
+    de = c.choice('de', _BIG_DENOMINATORS)
+    pow2 = de > 0 and bin(de).count('1') == 1
+  else:
+    de = c.int('de', 0, 130)
+    pow2 = c.Or([c.eq(de, 2**k) for k in range(0, 8)])
   ns.time_signatures.add(time=0, numerator=nu, denominator=de)
   res, err = _reject_common(c, sl, ns, 4)
-  pow2 = c.Or([c.eq(de, 2**k) for k in range(0, 8)])
   bad = c.Or(c.eq(nu, 0), c.Not(pow2))
   if err is not None:
     c.check(isinstance(err, sl.BadTimeSignatureError),
@@ -324,32 +525,138 @@ def h2_bad_timesig(c):
     c.cover('rejected')
   else:
     c.check(c.Not(bad), 'bad time signature accepted')
+    _accepted(c, res, ns, ev, tt, 4, 120.0, True, False)
+    c.cover('accepted')
+
+
+def h2_combined(c):
+  """Several documented rejections in one sequence that also has events: two
+  tempos, two time signatures (numerator 0 and denominator 3 possible, also at
+  a time > 0 and repeated), a note and a control change whose time may be
+  negative.  Raises iff at least one documented cause is present, and the
+  error raised names a cause that is present (which one wins is not
+  documented)."""
+  pb, sl = c.pb, c.mod('sequences_lib')
+  spq = c.params.get('spq', 4)
+  ns = pb.NoteSequence()
+  notes, _, _ = _events(c, ns, 1, 0, 0)
+  t = c.real('cc_t', -10, 10)
+  ns.control_changes.add(time=t, control_number=64, control_value=127)
+  tt = c.real('tt', 0)
+  ns.total_time = tt
+  tempos, tss = [], []
+  for i in range(2):
+    tp = (c.real('tp%d_t' % i, 0), c.real('tp%d_q' % i, 10, 480))
+    ns.tempos.add(time=tp[0], qpm=tp[1])
+    tempos.append(tp)
+  for i in range(2):
+    ts = (c.real('ts%d_t' % i, 0), c.int('ts%d_n' % i, 0, 12),
+          c.choice('ts%d_d' % i, [3, 4, 8]))
+    ns.time_signatures.add(time=ts[0], numerator=ts[1], denominator=ts[2])
+    tss.append(ts)
+  res, err = _reject_common(c, sl, ns, spq)
+  tp_change = c.Or(c.Not(c.eq(tempos[0][1], tempos[1][1])),
+                   c.And(c.Min([tempos[0][0], tempos[1][0]]) > 0,
+                         c.Not(c.eq(tempos[0][1], 120.0))))
+  ts_same = c.And(c.eq(tss[0][1], tss[1][1]), tss[0][2] == tss[1][2])
+  ts_change = c.Or(c.Not(ts_same),
+                   c.And(c.Min([tss[0][0], tss[1][0]]) > 0,
+                         c.Not(c.And(c.eq(tss[0][1], 4), tss[0][2] == 4))))
+  ts_bad = c.Or([c.Or(c.eq(nu, 0), de == 3) for _, nu, de in tss])
+  sps = spq * tempos[0][1] / 60.0
+  if err is not None:
+    c.check(isinstance(err, (sl.MultipleTempoError,
+                             sl.MultipleTimeSignatureError,
+                             sl.BadTimeSignatureError, sl.NegativeTimeError)),
+            'only the documented errors')
+    if isinstance(err, sl.MultipleTempoError):
+      c.check(tp_change, 'MultipleTempoError without a tempo change')
+    elif isinstance(err, sl.MultipleTimeSignatureError):
+      c.check(ts_change,
+              'MultipleTimeSignatureError without a time signature change')
+    elif isinstance(err, sl.BadTimeSignatureError):
+      c.check(ts_bad, 'BadTimeSignatureError without a bad time signature')
+    else:
+      c.check(t < 0, 'NegativeTimeError for a non-negative time')
+    c.cover('rejected')
+    c.cover('bad time signature repeated at a time > 0 (no change from it)',
+            c.And(ts_same, tss[0][2] == 3, tss[0][0] > 0, tss[1][0] > 0))
+    c.cover('tempo change and time signature change together',
+            c.And(tp_change, ts_change))
+  else:
+    c.check(c.Not(tp_change), 'tempo change accepted instead of rejected')
+    c.check(c.Not(ts_change),
+            'time signature change accepted instead of rejected')
+    c.check(c.Not(ts_bad), 'bad time signature accepted')
+    c.check(c.Not(t * sps <= -2), 'time two or more steps before zero accepted')
+    if t >= 0:
+      exp = _expected(c, ns, notes, [t], [], tt, sps)
+      exp.quantization_info.steps_per_quarter = spq
+      exp.tempos[0].time = 0
+      del exp.tempos[1:]
+      exp.time_signatures[0].time = 0
+      del exp.time_signatures[1:]
+      c.check(c.msg_eq(res, exp),
+              'accepted: result = input copy + steps + single tempo/meter at 0')
     c.cover('accepted')
 
 
 def h2_negative(c):
-  """NegativeTimeError for times >= 2 steps before zero; never for t >= 0."""
+  """NegativeTimeError for times >= 2 steps before zero; never for t >= 0.
+  Job parameter rel=<steps_per_quarter>: through quantize_note_sequence at a
+  symbolic tempo instead of quantize_note_sequence_absolute."""
   pb, sl = c.pb, c.mod('sequences_lib')
-  sps = c.params['sps']
+  rel = c.params.get('rel')
   which = c.params['which']
   ns = pb.NoteSequence()
+  if rel:
+    qpm = c.real('qpm', 10, 480)
+    ns.tempos.add(qpm=qpm)
+    sps = rel * qpm / 60.0
+  else:
+    sps = c.params['sps']
   t = c.real('t', -10, 10)
+  notes, ccs, tas = [], [], []
+  extra = c.params.get('extra')
+
+  def harmless():
+    # a harmless event of every kind, stored BEFORE and AFTER the offending
+    # one, does not mask it
+    ns.notes.add(start_time=1, end_time=2, pitch=61, velocity=1)
+    notes.append({'start_time': 1, 'end_time': 2})
+    ns.control_changes.add(time=1, control_number=7, control_value=0)
+    ccs.append(1)
+    ns.text_annotations.add(time=1, text='D', annotation_type=1)
+    tas.append(1)
+
+  if extra:
+    harmless()
   if which == 'note_start':
     e = c.real('e')
     c.assume(e >= t)
     ns.notes.add(start_time=t, end_time=e, pitch=60, velocity=1)
+    notes.append({'start_time': t, 'end_time': e})
   elif which == 'note_end':
     s = c.real('s')
     c.assume(s <= t)
     ns.notes.add(start_time=s, end_time=t, pitch=60, velocity=1)
+    notes.append({'start_time': s, 'end_time': t})
     t = s  # the earliest time of the note decides
   elif which == 'cc':
     ns.control_changes.add(time=t, control_number=64, control_value=0)
+    ccs.append(t)
   else:
     ns.text_annotations.add(time=t, text='C', annotation_type=1)
-  ns.total_time = c.real('tt', 0)
+    tas.append(t)
+  if extra:
+    harmless()
+  tt = c.real('tt', 0)
+  ns.total_time = tt
   before = c.snapshot(ns)
-  res, err = c.raises(sl.quantize_note_sequence_absolute, ns, sps)
+  if rel:
+    res, err = c.raises(sl.quantize_note_sequence, ns, rel)
+  else:
+    res, err = c.raises(sl.quantize_note_sequence_absolute, ns, sps)
   c.check(c.msg_eq(ns, before), 'input unchanged (also when raising)')
   if err is not None:
     c.check(isinstance(err, sl.NegativeTimeError), 'only NegativeTimeError')
@@ -357,7 +664,98 @@ def h2_negative(c):
     c.cover('rejected')
   else:
     c.check(c.Not(t * sps <= -2), 'time two or more steps before zero accepted')
+    if t * sps >= -0.5:
+      # every time is at most half a step before zero: the nearest step (ties
+      # up) is the documented value, step 0 for the slightly negative ones
+      exp = _expected(c, ns, notes, ccs, tas, tt, sps)
+      if rel:
+        exp.quantization_info.steps_per_quarter = rel
+        exp.time_signatures.add(numerator=4, denominator=4, time=0)
+      else:
+        exp.quantization_info.steps_per_second = sps
+      c.check(c.msg_eq(res, exp),
+              'accepted: result = input copy + nearest steps')
+      c.cover('accepted with a time slightly before zero', t < 0)
     c.cover('accepted')
+
+
+def h4_q2s(c):
+  """quantize_to_step called directly with an explicit cutoff (third positional
+  argument or keyword) and steps_per_second != 1: int(t*sps + (1 - cutoff)),
+  the formula of the property's anchor; default = QUANTIZE_CUTOFF = 0.5."""
+  sl = c.mod('sequences_lib')
+  sps = c.choice('sps', [3, 100, 8.25])
+  t = c.real('t', -10, 1000)
+  k = c.real('cutoff', 0, 1)
+  form = c.choice('form', ['positional', 'keyword'])
+  if form == 'positional':
+    got = sl.quantize_to_step(t, sps, k)
+  else:
+    got = sl.quantize_to_step(t, sps, quantize_cutoff=k)
+  v = t * sps + (1 - k)
+  want = c.If(v >= 0, c.Floor(v), c.Ceil(v))
+  c.check(c.eq(got, want),
+          'explicit quantize_cutoff: int(t*sps + (1 - cutoff))')
+  d = sl.quantize_to_step(t, sps)
+  v = t * sps + 0.5
+  c.check(c.eq(d, c.If(v >= 0, c.Floor(v), c.Ceil(v))),
+          'default cutoff: int(t*sps + 1/2)')
+  c.cover('cutoff 0 rounds everything up',
+          c.And(c.eq(k, 0), t > 0, c.eq(got, c.Floor(t * sps) + 1)))
+  c.cover('cutoff 1 rounds everything down',
+          c.And(c.eq(k, 1), t > 0, c.eq(got, c.Floor(t * sps))))
+  c.cover('negative product', t * sps + (1 - k) <= -1)
+
+
+def h4_sps(c):
+  """steps_per_quarter_to_steps_per_second called directly, also with a
+  Python int tempo: steps_per_quarter * qpm / 60 (true division)."""
+  sl = c.mod('sequences_lib')
+  spq = c.int('spq', 1, 96)
+  if c.params['qpm'] == 'int':
+    qpm = c.int('qpm', 10, 480)
+  else:
+    qpm = c.real('qpm', 10, 480)
+  got = sl.steps_per_quarter_to_steps_per_second(spq, qpm)
+  c.check(c.eq(got * 60, spq * qpm),
+          'steps per second = steps_per_quarter * qpm / 60')
+  c.cover('non-integer steps per second', c.And(c.eq(spq, 1), c.eq(qpm, 90)))
+
+
+def h4_inplace(c):
+  """_quantize_notes called directly ("in place") on a sequence that already
+  carries quantization residue: every quantized field is overwritten with the
+  nearest step, total_quantized_steps covers every note end afterwards,
+  nothing else changes."""
+  pb, sl = c.pb, c.mod('sequences_lib')
+  sps = c.params['sps']
+  ns = pb.NoteSequence()
+  notes, ccs, tas = _events(c, ns, c.params['N'], 1, 1)
+  tt = c.real('tt', 0)
+  ns.total_time = tt
+  _populate_other_fields(c, ns)
+  t0 = c.int('tq0', 0, 100000)
+  ns.total_quantized_steps = t0
+  for i, m in enumerate(ns.notes):
+    m.quantized_start_step = c.int('res_s%d' % i, 0, 100000)
+    m.quantized_end_step = c.int('res_e%d' % i, 0, 100000)
+  ns.control_changes[0].quantized_step = c.int('res_c', 0, 100000)
+  ns.text_annotations[0].quantized_step = c.int('res_t', 0, 100000)
+  ns.quantization_info.steps_per_second = sps
+  before = c.snapshot(ns)
+  ret = sl._quantize_notes(ns, sps)  # pylint: disable=protected-access
+  c.check(ret is None, '_quantize_notes works in place (returns None)')
+  exp = _expected(c, before, notes, ccs, tas, 0, sps)
+  # what happens to a total that is already larger is not documented: only
+  # "covers every note end" is checked, the value is taken from the result
+  exp.total_quantized_steps = ns.total_quantized_steps
+  c.check(c.msg_eq(ns, exp),
+          'in place: stale quantized fields overwritten, nothing else changed')
+  for m in ns.notes:
+    c.check(ns.total_quantized_steps >= m.quantized_end_step,
+            'total_quantized_steps covers every note end')
+  c.cover('note end beyond the stale total',
+          _step(c, notes[0]['end_time'], sps) > t0 + 1)
 
 
 HARNESSES = {
@@ -367,7 +765,11 @@ HARNESSES = {
     'h2_tempos': h2_tempos,
     'h2_timesigs': h2_timesigs,
     'h2_bad_timesig': h2_bad_timesig,
+    'h2_combined': h2_combined,
     'h2_negative': h2_negative,
+    'h4_q2s': h4_q2s,
+    'h4_sps': h4_sps,
+    'h4_inplace': h4_inplace,
 }
 
 # ---------------------------------------------------------------------------
@@ -680,6 +1082,200 @@ def _real_sps():
   return call
 
 
+def _real_calls():
+  """Evaluates quantize_to_step(x, sps[, cutoff]) calls (cutoff positional or
+  by keyword) on the real function in a clean subprocess."""
+  import json  # pylint: disable=g-import-not-at-top
+  import os  # pylint: disable=g-import-not-at-top
+  import subprocess  # pylint: disable=g-import-not-at-top
+  import sys  # pylint: disable=g-import-not-at-top
+  verif = os.path.dirname(os.path.dirname(os.path.abspath(__file__)))
+
+  def call(specs):
+    """specs: list of (x, sps, cutoff-or-None, 'positional'|'keyword')."""
+    enc = [[float(x).hex(), (sp if isinstance(sp, int) else float(sp).hex()),
+            None if k is None else float(k).hex(), form]
+           for x, sp, k, form in specs]
+    code = ('import sys, json\nsys.path.insert(0, %r)\n'
+            'from engine import loader\nenv = loader.RealEnv()\n'
+            'f = env.mod("sequences_lib").quantize_to_step\n'
+            'def one(xh, sp, kh, form):\n'
+            '  x = float.fromhex(xh)\n'
+            '  sp = float.fromhex(sp) if isinstance(sp, str) else sp\n'
+            '  if kh is None:\n'
+            '    return f(x, sp)\n'
+            '  k = float.fromhex(kh)\n'
+            '  return f(x, sp, k) if form == "positional" else '
+            'f(x, sp, quantize_cutoff=k)\n'
+            'print(json.dumps([one(*a) for a in json.loads(%r)]))' %
+            (verif, json.dumps(enc)))
+    p = subprocess.run([sys.executable, '-c', code], stdout=subprocess.PIPE,
+                       stderr=subprocess.PIPE, text=True)
+    return json.loads(p.stdout.strip().splitlines()[-1])
+
+  return call
+
+
+def _lemmas_kw(job):
+  """E2 lemmas for what the other lemma jobs fix: steps_per_second != 1 (a
+  double, as quantize_note_sequence passes it, or an int), an explicit
+  quantize_cutoff (also outside [0,1], also for negative products), and
+  non-integer / int tempi in steps_per_quarter_to_steps_per_second."""
+  import z3  # pylint: disable=g-import-not-at-top
+  from engine import fpk  # pylint: disable=g-import-not-at-top
+  import time  # pylint: disable=g-import-not-at-top
+  del job
+  fnode, _ = fpk.get_function('sequences_lib', 'quantize_to_step')
+  k0 = _cutoff_const()
+  tr = fpk.Translator(consts={'QUANTIZE_CUTOFF': k0})
+  x = z3.FP('x', fpk.F64)
+  s_ = z3.FP('s', fpk.F64)
+  c_ = z3.FP('c', fpk.F64)
+  si = z3.BitVec('si', 64)
+  V_ = fpk.V
+  P = [a.arg for a in fnode.args.args]
+  if len(P) < 3:
+    return {'status': 'error', 'error': 'quantize_to_step has %d parameters' %
+            len(P)}
+  q_fc = tr.function(fnode, {P[0]: V_(x, 'fp'), P[1]: V_(s_, 'fp'),
+                             P[2]: V_(c_, 'fp')})
+  q_fd = tr.function(fnode, {P[0]: V_(x, 'fp'), P[1]: V_(s_, 'fp')})
+  q_ic = tr.function(fnode, {P[0]: V_(x, 'fp'), P[1]: V_(si, 'int'),
+                             P[2]: V_(c_, 'fp')})
+  obligations, viol = [], []
+  # --- translator validation against the real function; the third argument
+  # is passed positionally and by keyword
+  pts = []
+  for form in ('positional', 'keyword'):
+    pts += [(0.3, 3, 0.0, form), (2.0, 100, 0.0, form), (0.27, 8.25, 0.25, form),
+            (1.1, 8.25, 1.0, form), (-0.1, 3, 0.5, form), (-0.7, 3, 0.0, form),
+            (-0.7, 3, 1.0, form), (-2.6, 8.25, 0.75, form),
+            (5.55, 100, 1.5, form), (5.55, 100, -0.5, form),
+            (0.1, 1000, 0.3, form), (12.345, 31, 0.5, form)]
+  wants = _real_calls()(pts)
+  for (xv, sv, kv, form), want in zip(pts, wants):
+    if isinstance(sv, int):
+      got = fpk.eval_concrete(q_ic, [(x, xv), (si, sv), (c_, kv)])
+    else:
+      got = fpk.eval_concrete(q_fc, [(x, xv), (s_, sv), (c_, kv)])
+    if got != want:
+      viol.append({'label': 'L7a explicit quantize_cutoff follows int(t*sps + '
+                            '(1 - cutoff))',
+                   'values': {'lemma': 'L7a', 'x': float(xv).hex(),
+                              's': float(sv).hex(), 'c': float(kv).hex(),
+                              'form': form}, 'source': 'solver'})
+  one = z3.FPVal(1.0, fpk.F64)
+
+  def rng(v, lo, hi):
+    return z3.And(z3.fpGEQ(v, z3.FPVal(lo, fpk.F64)),
+                  z3.fpLEQ(v, z3.FPVal(hi, fpk.F64)))
+
+  dom = [rng(x, -2.0**30, 2.0**30), rng(s_, 1.0, 1000.0), rng(c_, -4.0, 4.0)]
+
+  def run(name, text, assertions, expect='unsat', timeout=100, model=None):
+    r = fpk.solve(assertions, timeout_s=timeout, want_model=model)
+    r.update({'lemma': name, 'statement': text, 'expect': expect,
+              'discharged': r['result'] == expect})
+    obligations.append(r)
+    return r
+
+  spec_f = z3.fpToSBV(fpk.RTZ, z3.fpAdd(fpk.RNE, z3.fpMul(fpk.RNE, x, s_),
+                                        z3.fpSub(fpk.RNE, one, c_)), fpk.BV)
+  run('L7a', 'for all doubles t in [-2^30,2^30], steps_per_second in [1,1000] '
+      '(any double, not only integers) and cutoff in [-4,4]: '
+      'quantize_to_step(t,sps,cutoff) = int(t*sps + (1 - cutoff)) in binary64 '
+      '(truncation toward zero, also for negative products)',
+      dom + [q_fc.t != spec_f], model={'x': x, 's': s_, 'c': c_})
+  spec_d = z3.fpToSBV(fpk.RTZ, z3.fpAdd(
+      fpk.RNE, z3.fpMul(fpk.RNE, x, s_),
+      z3.fpSub(fpk.RNE, one, z3.FPVal(0.5, fpk.F64))), fpk.BV)
+  run('L7b', 'for all doubles t, steps_per_second as in L7a: with the default '
+      'cutoff quantize_to_step(t,sps) = int(t*sps + (1 - 0.5)) in binary64',
+      dom[:2] + [q_fd.t != spec_d], model={'x': x, 's': s_})
+  spec_i = z3.fpToSBV(fpk.RTZ, z3.fpAdd(fpk.RNE, z3.fpMul(
+      fpk.RNE, x, z3.fpSignedToFP(fpk.RNE, si, fpk.F64)),
+                                        z3.fpSub(fpk.RNE, one, c_)), fpk.BV)
+  run('L7c', 'the same with an int steps_per_second in 1..1000',
+      [dom[0], dom[2], si >= 1, si <= 1000, q_ic.t != spec_i],
+      model={'x': x, 'si': si, 'c': c_})
+  run('L7-twin', 'assumptions of L7a-L7c satisfiable', dom + [si >= 1,
+                                                               si <= 1000],
+      expect='sat')
+  # --- L5r: steps_per_quarter_to_steps_per_second in the standard model of
+  # binary64 (every operation exact*(1+d), |d| <= 2^-53) for EVERY real tempo
+  # (non-integer too) and for int tempi: within 2^-51 (relative) of spq*qpm/60
+  f_cv, _ = fpk.get_function('sequences_lib',
+                             'steps_per_quarter_to_steps_per_second')
+  cp = [a.arg for a in f_cv.args.args]
+  for kind in ('real', 'int'):
+    t0 = time.time()
+    spq_ = z3.Int('spq')
+    q_ = z3.Real('q') if kind == 'real' else z3.Int('q')
+    try:
+      sm = fpk.StdModel(tag='l5' + kind[0])
+      sm.declare_nonneg(spq_)
+      sm.declare_nonneg(q_)
+      res = sm.function(f_cv, {cp[0]: V_(spq_, 'int'),
+                               cp[1]: V_(q_, 'fp' if kind == 'real' else 'int')})
+      val = sm.real(res)
+      qr = q_ if kind == 'real' else z3.ToReal(q_)
+      exact = z3.ToReal(spq_) * qr / 60
+      eps = z3.Q(1, 2**51)
+      sv = z3.Solver()
+      sv.set('timeout', 60000)
+      sv.add([spq_ >= 1, spq_ <= 96, q_ >= 10, q_ <= 480] + list(sm.side))
+      sv.add(z3.Or(val > exact * (1 + eps), val < exact * (1 - eps)))
+      rr = str(sv.check())
+      mdl = None
+      if rr == 'sat':
+        m = sv.model()
+        qv = m.eval(q_, model_completion=True)
+        qf = (float(qv.as_long()) if kind == 'int' else
+              qv.numerator_as_long() / qv.denominator_as_long())
+        mdl = {'spq': m.eval(spq_, model_completion=True).as_long(), 'q': qf}
+    except fpk.UnsupportedConstruct as e:
+      rr, mdl = 'unknown (cannot translate: %s)' % e, None
+    obligations.append({
+        'lemma': 'L5r[%s]' % kind, 'statement':
+            'for all steps_per_quarter in 1..96 and every %s tempo q in '
+            '[10,480]: steps_per_quarter_to_steps_per_second(spq, q) is '
+            'within 2^-51 (relative) of spq*q/60 in the standard model of '
+            'binary64' % kind,
+        'expect': 'unsat', 'result': rr, 'discharged': rr == 'unsat',
+        'seconds': round(time.time() - t0, 3), 'backend': 'z3 nlsat'})
+    if mdl is not None:
+      viol.append({'label': 'L5r steps per second = spq*qpm/60 up to rounding',
+                   'values': {'lemma': 'L5r', 'spq': mdl['spq'],
+                              'q': float(mdl['q']).hex(), 'kind': kind},
+                   'source': 'solver'})
+  out = {'obligations': obligations, 'status': 'ok',
+         'solver_queries': len(obligations),
+         'solver_seconds': round(sum(o['seconds'] for o in obligations), 3)}
+  for o in obligations:
+    if not o['discharged']:
+      if o['result'] == 'sat' and o['expect'] == 'unsat':
+        if 'model' in o:
+          mv = o['model']
+          sv_ = mv['s_hex'] if 's_hex' in mv else float(mv['si']).hex()
+          mv.setdefault('c_hex', float(0.5).hex())
+          viol.append({
+              'label': ('L7b default cutoff is QUANTIZE_CUTOFF'
+                        if o['lemma'] == 'L7b' else
+                        'L7a explicit quantize_cutoff follows int(t*sps + '
+                        '(1 - cutoff))'),
+              'values': {'lemma': 'L7b' if o['lemma'] == 'L7b' else 'L7a',
+                         'x': mv['x_hex'], 's': sv_, 'c': mv['c_hex'],
+                         'int_sps': o['lemma'] == 'L7c', 'form': 'positional'},
+              'source': 'solver'})
+      else:
+        out['status'] = 'inconclusive'
+        out['error'] = 'lemma %s: %s' % (o['lemma'], o['result'])
+  if viol:
+    out['violations'] = viol
+    out['status'] = 'violation'
+  return out
+
+
 def h_lemma_witness(c):
   """Concrete replay of a lemma counterexample on the real function, with the
   oracle evaluated in exact rational arithmetic."""
@@ -693,7 +1289,35 @@ def h_lemma_witness(c):
     c.check(Fraction(got) == Fraction(spq * q, 60),
             'L5 steps per second not exact for an integer tempo')
     return
+  if lemma == 'L5r':
+    spq = int(c.values['spq'])
+    q = float.fromhex(c.values['q'])
+    if c.values.get('kind') == 'int':
+      q = int(q)
+    got = sl.steps_per_quarter_to_steps_per_second(spq, q)
+    want = Fraction(spq) * Fraction(q) / 60
+    c.check(abs(Fraction(got) - want) <= want / 2**51,
+            'L5r steps per second = spq*qpm/60 up to rounding')
+    return
   x = float.fromhex(c.values['x'])
+  if lemma in ('L7a', 'L7b'):
+    sp = float.fromhex(c.values['s'])
+    if c.values.get('int_sps'):
+      sp = int(sp)
+    k = float.fromhex(c.values['c'])
+    if c.values.get('form') == 'keyword':
+      got = sl.quantize_to_step(x, sp, quantize_cutoff=k)
+    else:
+      got = sl.quantize_to_step(x, sp, k)
+    if lemma == 'L7a':
+      # binary64 evaluation of the anchor's formula (Python floats are
+      # binary64, int() truncates)
+      c.check(got == int(x * sp + (1 - k)),
+              'L7a explicit quantize_cutoff follows int(t*sps + (1 - cutoff))')
+    else:
+      c.check(sl.quantize_to_step(x, sp) == int(x * sp + (1 - 0.5)),
+              'L7b default cutoff is QUANTIZE_CUTOFF')
+    return
   if lemma in ('L6a', 'L6b'):
     k = float.fromhex(c.values['c'])
     got = sl.quantize_to_step(x, 1, quantize_cutoff=k)
@@ -722,7 +1346,8 @@ def h_lemma_witness(c):
 
 HARNESSES['lemmas'] = h_lemma_witness
 HARNESSES['lemma_sps'] = h_lemma_witness
-FUNCS = {'lemmas': _lemmas, 'lemma_sps': _lemma_sps}
+HARNESSES['lemmas_kw'] = h_lemma_witness
+FUNCS = {'lemmas': _lemmas, 'lemma_sps': _lemma_sps, 'lemmas_kw': _lemmas_kw}
 
 
 def jobs(tier):
@@ -734,6 +1359,7 @@ def jobs(tier):
 
   deep = tier == 'thorough'
   add('lemmas', kind='func', budget=600)
+  add('lemmas_kw', kind='func', budget=600)
   for spq in ((1, 2, 3, 4, 6, 8, 12, 24, 96, 30, 50, 60) if not deep else
               range(1, 97)):
     add('lemma_sps', kind='func', budget=400, spq=spq)
@@ -757,6 +1383,35 @@ def jobs(tier):
   add('h2_bad_timesig')
   for which in ('note_start', 'note_end', 'cc', 'annotation'):
     add('h2_negative', sps=31, which=which)
+  # --- audit round (kwargs / siblings / excluded inputs / uncompared outputs)
+  # stale total_time (also 0 / smaller than the note ends), 0 or 2 control
+  # changes / annotations, no notes
+  add('h1_absolute', N=2, sps=3, total='free', ncc=0, nta=0)
+  add('h1_absolute', N=1, sps=100, total='free', ncc=2, nta=2, pred=1)
+  add('h1_absolute', N=0, sps=31, ncc=2, nta=1)
+  add('h1_absolute', N=1, sps=31, meta='multi')
+  add('h1_relative', N=2, spq=4, tempo='absent', total='free', ncc=0, nta=0)
+  add('h1_relative', N=1, spq=24, tempo='explicit', total='free', ncc=2,
+      nta=2, pred=1)
+  add('h1_relative', N=0, spq=4, tempo='explicit', ncc=1, nta=2)
+  for mode in ('notempo', 'late120_nometer', 'dup'):
+    add('h1_relative', N=1, spq=4, tempo=mode)
+  add('h3_stretch', N=1, spq=4, k=[3, 2], real=1, ev=1)
+  add('h3_stretch', N=1, spq=4, k=[1, 2], real=1, ev=1)
+  add('h2_tempos', K=2, ev=1)
+  add('h2_timesigs', K=2, ev=1)
+  add('h2_bad_timesig', de='big', ev=1)
+  add('h2_combined')
+  for which in ('note_start', 'cc', 'annotation'):
+    add('h2_negative', rel=4, which=which)
+  add('h2_negative', sps=100, which='note_end', extra=1)
+  add('h2_negative', sps=3, which='cc', extra=1)
+  add('h2_negative', sps=3, which='annotation', extra=1)
+  add('h4_q2s')
+  add('h4_sps', qpm='int')
+  add('h4_sps', qpm='real')
+  add('h4_inplace', N=1, sps=31)
+  add('h4_inplace', N=2, sps=3)
   if deep:
     add('h1_absolute', budget=1800, N=1, sps='sym')
     add('h1_absolute', budget=1800, required=False, N=2, sps='sym')
@@ -774,4 +1429,28 @@ def jobs(tier):
     for which in ('note_start', 'cc'):
       for sps in (1, 1000):
         add('h2_negative', sps=sps, which=which)
+    # audit round, deeper variants
+    for sps in (31, 1000):
+      add('h1_absolute', budget=1800, N=2, sps=sps, total='free', ncc=2, nta=2)
+    add('h1_absolute', budget=1800, N=2, sps=100, meta='multi', total='free')
+    add('h1_relative', budget=1800, N=2, spq=24, tempo='explicit',
+        total='free', ncc=2, nta=2)
+    for mode in ('notempo', 'late120_nometer', 'dup'):
+      add('h1_relative', budget=1800, N=2, spq=24, tempo=mode, total='free')
+    add('h3_stretch', budget=900, N=2, spq=24, k=[5, 4], real=1, ev=1)
+    add('h2_tempos', budget=900, K=3, ev=1)
+    add('h2_timesigs', budget=900, K=3, ev=1)
+    add('h2_combined', budget=900, spq=24)
+    for rel in (1, 96):
+      for which in ('note_start', 'note_end', 'cc'):
+        add('h2_negative', rel=rel, which=which, extra=1)
+    add('h4_inplace', budget=900, N=2, sps=1000)
+  # FINDING-CANDIDATE (weak, left out of the jobs: whether an inverted note is
+  # inside the quantifier is debatable): "keeps every note at least one step
+  # long" fails for a note whose end_time is before its start_time, e.g.
+  # notes=[start_time=2.0, end_time=0.0], total_time=2.0:
+  # quantize_note_sequence_absolute(ns, 1) -> quantized_start_step=2,
+  # quantized_end_step=0 (quantize_note_sequence(ns, 4): 16 / 0); the one-step
+  # minimum is applied only when the two steps are EQUAL.  All snap harnesses
+  # assume end_time >= start_time (K.add_notes).
   return J
